@@ -18,6 +18,7 @@ import (
 	"context"
 	"errors"
 	"fmt"
+	"os"
 	"runtime"
 	"sort"
 	"strconv"
@@ -54,6 +55,8 @@ type c03Storage struct {
 	closed int
 	// failSets: fault injection — plain Set writes (the queue-size snapshot of an items/bytes-sized persistent queue) fail
 	failSets bool
+	// failClose: fault injection — Close of the storage client reports an error (the client is closed nevertheless)
+	failClose bool
 }
 
 type c03Client struct {
@@ -87,6 +90,9 @@ func (c *c03Client) Close(context.Context) error {
 	defer c.ext.mu.Unlock()
 	c.closed = true
 	c.ext.closed++
+	if c.ext.failClose {
+		return errors.New("injected: storage close failed")
+	}
 	return nil
 }
 func (c *c03Client) Batch(_ context.Context, ops ...*storage.Operation) error {
@@ -412,7 +418,8 @@ type c03Case struct {
 	cfg     c03Cfg
 	acts    []c03Act
 	backend []c03Call
-	failSet bool // storage starts failing plain Set writes just before Shutdown is called
+	failSet   bool // storage starts failing plain Set writes just before Shutdown is called (size snapshot of an items-sized queue)
+	failClose bool // the storage client's Close fails (from just before Shutdown)
 }
 
 func (c *c03Cfg) options(host *component.Host, st *c03Storage) ([]Option, error) {
@@ -515,6 +522,9 @@ func c03Gen(c int) *c03Case {
 			cfg.capacity = int64(8 + rnd.IntN(60))
 			cs.failSet = rnd.IntN(2) == 0
 		}
+		if rnd.IntN(4) == 0 {
+			cs.failClose = true
+		}
 	case 6: // persistent queue + batcher: legacy WithBatcher, or sending_queue::batch (items-sized queue)
 		cfg.persistent = true
 		cfg.batch = 2
@@ -525,7 +535,9 @@ func c03Gen(c int) *c03Case {
 			if rnd.IntN(2) == 0 {
 				cfg.capacity = 10000
 			}
+			cs.failSet = rnd.IntN(3) == 0 // the size snapshot written by Shutdown fails
 		}
+		cs.failClose = rnd.IntN(3) == 0 // Close fails (reached by Shutdown itself when nothing is in flight or batched)
 		splitty = rnd.IntN(3) != 0
 	case 7: // wait_for_result, or the legacy batcher without a queue (also waits for the result)
 		if rnd.IntN(2) == 0 {
@@ -747,6 +759,14 @@ func c03Corpus() []*c03Case {
 		{cfg: c03Cfg{queue: true, persistent: true, sizer: "items", capacity: 1000, consumers: 1, batch: 1, flushTO: time.Hour, minSize: 3, maxSize: 3,
 			retry: true, initial: time.Second, wrap: true, signal: c03SigTraces},
 			acts: []c03Act{send(0, 1, 8), sd(10 * ms)}, backend: []c03Call{{0, 2}, {0, 0}, {0, 1}, {0, 1}}},
+		// storage faults AT SHUTDOWN with a batcher: the queue's own Shutdown returns an error, the batcher must still be shut down
+		// (final flush of the parked partial batch, timer goroutine ended): nothing may be exported after the return
+		{cfg: c03Cfg{queue: true, persistent: true, sizer: "items", capacity: 1000, consumers: 1, batch: 1, flushTO: time.Second, minSize: 40, wrap: true}, failSet: true,
+			acts: []c03Act{send(0, 1, 3), send(ms, 2, 3), sd(10 * ms)}},
+		{cfg: c03Cfg{queue: true, persistent: true, sizer: "requests", capacity: 100, consumers: 1, batch: 2, flushTO: time.Hour, minSize: 2, wrap: true}, failClose: true,
+			acts: []c03Act{send(0, 1, 3), send(ms, 2, 3), sd(time.Second)}},
+		{cfg: c03Cfg{queue: true, persistent: true, sizer: "requests", capacity: 100, consumers: 1, batch: 2, flushTO: time.Second, minSize: 40, wrap: true}, failClose: true,
+			acts: []c03Act{send(0, 1, 3), sd(10 * ms)}},
 		// shutdown exactly when the flush timer fires
 		{cfg: c03Cfg{queue: true, sizer: "items", capacity: 10000, consumers: 1, batch: 1, flushTO: 30 * ms, minSize: 40},
 			acts: []c03Act{send(0, 1, 3), sd(30 * ms), send(30*ms, 2, 2)}, backend: []c03Call{{5 * ms, 0}}},
@@ -890,9 +910,11 @@ func c03Exec(cs *c03Case, set exporter.Settings, probe func(run *c03Run)) *c03Ru
 					probe(run)
 					<-probeSem
 				}
-				if cs.failSet {
+				if cs.failSet || cs.failClose {
+					// storage faults AT SHUTDOWN: the queue's own Shutdown returns an error; the rest of the shutdown must still happen
 					st.mu.Lock()
-					st.failSets = true
+					st.failSets = cs.failSet
+					st.failClose = cs.failClose
 					st.mu.Unlock()
 				}
 				run.log(c03Ev{kind: "shutreq"})
@@ -964,6 +986,7 @@ func c03Exec(cs *c03Case, set exporter.Settings, probe func(run *c03Run)) *c03Ru
 		sort.Ints(run.stored)
 		st.mu.Lock()
 		st.failSets = false
+		st.failClose = false
 		st.mu.Unlock()
 		// the next start: a new exporter on the same storage, always-succeeding backend
 		var rmu sync.Mutex
@@ -1261,9 +1284,9 @@ func c03D(d time.Duration) string { return strconv.FormatInt(int64(d), 10) }
 func c03EmitOps(out *vOut, idx int, cs *c03Case) {
 	c := cs.cfg
 	out.Linef("case %d", idx)
-	out.Linef("op cfg signal=%s wrap=%d queue=%d persistent=%d sizer=%s cap=%d consumers=%d wfr=%d block=%d batch=%d flush=%s min=%d max=%d retry=%d initial=%s maxelapsed=%s timeout=%s failset=%d",
+	out.Linef("op cfg signal=%s wrap=%d queue=%d persistent=%d sizer=%s cap=%d consumers=%d wfr=%d block=%d batch=%d flush=%s min=%d max=%d retry=%d initial=%s maxelapsed=%s timeout=%s failset=%d failclose=%d",
 		c03SigName[c.signal], vB(c.wrap), vB(c.queue), vB(c.persistent), c.sizer, c.capacity, c.consumers, vB(c.wfr), vB(c.block), c.batch, c03D(c.flushTO), c.minSize, c.maxSize,
-		vB(c.retry), c03D(c.initial), c03D(c.maxElapsed), c03D(c.timeout), vB(cs.failSet))
+		vB(c.retry), c03D(c.initial), c03D(c.maxElapsed), c03D(c.timeout), vB(cs.failSet), vB(cs.failClose))
 	for _, a := range cs.acts {
 		if a.shutdown {
 			out.Linef("op act %s shutdown", c03D(a.at))
@@ -1401,6 +1424,14 @@ func c03Emit(out *vOut, idx int, cs *c03Case, run *c03Run) {
 	if cs.failSet {
 		out.Linef("stat storage_set_fails_at_shutdown 1")
 	}
+	if cs.failClose {
+		out.Linef("stat storage_close_fails_at_shutdown 1")
+	}
+	for _, e := range run.evs {
+		if e.kind == "shutret" && e.failed {
+			out.Linef("stat shutdown_returned_error 1")
+		}
+	}
 	if c.wrap {
 		out.Linef("stat request_wrapper 1")
 	}
@@ -1435,6 +1466,12 @@ func TestVerifC03Shutdown(t *testing.T) {
 			run := c03Exec(cs, exportertest.NewNopSettings(exportertest.NopType), nil)
 			c03Emit(out, c, cs, run)
 			out.Flush()
+			if run.leak > 0 {
+				// a helper goroutine that survived 3 virtual hours stays for good (e.g. a flush timer that re-arms itself) and would
+				// keep the single bubble alive for ever: everything seen is written; end the test process here
+				out.Close()
+				os.Exit(3)
+			}
 			if run.hung {
 				// goroutines of this case are stuck for good; the bubble cannot be reused
 				return
